@@ -60,7 +60,7 @@ fn game_with_frames(v: (u8, u8, u8)) -> Option<Game> {
 
 fn check(v: (u8, u8, u8), which: i64) -> Result<(), (String, String)> {
 	let over = v > (3, 16, 0);
-	let g = if which >= 2 {
+	let g = if which == 2 || which == 3 {
 		match game_with_frames(v) {
 			Some(g) => g,
 			None => return Ok(()),
@@ -68,6 +68,14 @@ fn check(v: (u8, u8, u8), which: i64) -> Result<(), (String, String)> {
 	} else {
 		game_for(v)
 	};
+	// which 4/5: the public version field says v, the raw Game Start block still says 3.16.0 (a caller
+	// changed the field): the field is the game's version, so the writers must go by it
+	let mut g = g;
+	if which >= 4 {
+		g.start.bytes.0[0] = 3;
+		g.start.bytes.0[1] = 16;
+		g.start.bytes.0[2] = 0;
+	}
 	let which = which % 2;
 	let res = if which == 0 { write_slp(&g).map(|_| ()) } else { write_slpp(g, 0).map(|_| ()) };
 	let name = if which == 0 { "slippi::write" } else { "peppi::write" };
@@ -138,6 +146,16 @@ pub fn run() {
 					bad.push(1);
 				}
 			}
+			// field above the maximum, raw block not: must still be refused (only asked on the refusing side;
+			// the converse - field supported, raw block newer - is an inconsistent game the statement does not cover)
+			if over && matches!(pa, 0 | 1 | 255) {
+				for w in [4i64, 5] {
+					local.evaluations += 1;
+					if check(v, w).is_err() {
+						bad.push(w);
+					}
+				}
+			}
 			// the same with a game that HAS frames, for the boundary patches of every (major, minor)
 			if matches!(pa, 0 | 1 | 255) {
 				for w in [2i64, 3] {
@@ -148,7 +166,7 @@ pub fn run() {
 				}
 			}
 			for w in bad {
-				let mut p = P { class: ["slp", "slpp", "slp-with-frames", "slpp-with-frames"][w as usize], ..Default::default() };
+				let mut p = P { class: ["slp", "slpp", "slp-with-frames", "slpp-with-frames", "slp-field-vs-raw", "slpp-field-vs-raw"][w as usize], ..Default::default() };
 				p.n = [w, ma as i64, mi as i64, pa as i64, 0, 0];
 				let empty = Arc::new(vec![]);
 				local.evaluations -= 1;
